@@ -77,8 +77,11 @@ FIXED_UNIONS = [
     "U(str)",                                            # one member
     "U(i64|u64|d18)",
     "U(d2|d1)",                                          # "1.5" first, "1.25" first, canonical of d1 never reached
+    "U(lref(i8)|lref(str:2..3)|bool)",                   # two leafref members: their values carry the TARGET's type (finding F424: sort finds neither)
+    "U(i16|lref(d1)|str)",                               # a leafref member between ordinary ones
+    "U(lref(%s)|lref(u8)|%s)" % (E1, P_DIG),
 ]
-MEMBER_POOL = ["i8", "u8", "i16:-300..300", "u16", "i32", "i64", "u64:0..5,9223372036854775808..18446744073709551615", "d1", "d3:-5000..5000", "bool", "str", "str:0..2",
+MEMBER_POOL = ["lref(i8)", "lref(str:0..2)", "i8", "u8", "i16:-300..300", "u16", "i32", "i64", "u64:0..5,9223372036854775808..18446744073709551615", "d1", "d3:-5000..5000", "bool", "str", "str:0..2",
                "str:2..3", E1, E2, B1, P_AB, P_DIG]
 
 UNION_POOL = [b"", b" ", b"0", b"1", b"+1", b"01", b" 1", b"1 ", b"-0", b"-1", b"7", b"-3", b"10", b"127", b"128", b"255", b"256", b"-128", b"-129", b"300", b"-300", b"301",
@@ -281,6 +284,7 @@ def run_union(run):
     for u in unions:
         pool = set(UNION_POOL)
         for m in members[u]:
+            m = m[5:-1] if m.startswith("lref(") else m
             head, parts = (m.split(":")[0], []) if m.startswith(("enum", "bits", "pstr")) else valcomp.parse_desc(m)
             for a, b in parts:
                 for v in (a - 1, a, b, b + 1):
@@ -449,7 +453,7 @@ def routes_union(run, unions, lex_of, accepted):
         if valcomp.xml_plain(s) and carrier: mask |= 1
         if carrier: mask |= 2
         if valcomp.JSON_INT.match(s) or s in (b"true", b"false"): mask |= 4
-        if all(0x20 <= c < 0x7f for c in s) and s.strip(b" ") == s and cx.dist["val:route:union-default-run"] < cx.n(40, 600):
+        if all(0x20 <= c < 0x7f for c in s) and s.strip(b" ") == s and cx.dist["val:route:union-default-run"] < cx.n(40, 600) and "lref(" not in u:
             mask |= 32
             cx.dist["val:route:union-default-run"] += 1
         if not (b"'" in s and b'"' in s): mask |= 64
